@@ -118,6 +118,10 @@ REFUSALS = {
     'C16': ('bitcoin.core.CheckTransaction', 'bitcoin.core.CheckBlock', 'bitcoin.core.CheckBlockHeader', 'bitcoin.core.CheckProofOfWork'),
     'C06': ('bitcoin.core.scripteval._EvalScript', 'bitcoin.core.scripteval._CheckMultiSig', 'bitcoin.core.scripteval.VerifyScript', 'bitcoin.core.scripteval._UnaryOp',
             'bitcoin.core.scripteval._BinOp', 'bitcoin.core.scripteval._CastToBigNum'),
+    'C07': ('bitcoin.core.scripteval._EvalScript', 'bitcoin.core.scripteval._CheckMultiSig', 'bitcoin.core.scripteval.VerifyScript', 'bitcoin.core.scripteval._UnaryOp',
+            'bitcoin.core.scripteval._BinOp', 'bitcoin.core.scripteval._CastToBigNum', 'bitcoin.core.scripteval.EvalScript'),
+    'C17': ('bitcoin.core.CheckProofOfWork',),
+    'C08': ('bitcoin.core.script.CScript.raw_iter', 'bitcoin.core.script.CScriptOp.encode_op_n', 'bitcoin.core.script.CScriptOp.decode_op_n', 'bitcoin.core.script.CScriptOp.encode_op_pushdata'),
     'C05': ('bitcoin.core.scripteval._CheckMultiSig', 'bitcoin.core.scripteval.VerifyScript', 'bitcoin.core.scripteval.VerifySignature'),
     'C12': ('bitcoin.wallet.CBitcoinAddress.__new__', 'bitcoin.wallet.CBech32BitcoinAddress.from_bytes', 'bitcoin.wallet.CBase58BitcoinAddress.from_bytes',
             'bitcoin.wallet.P2SHBitcoinAddress.from_scriptPubKey', 'bitcoin.wallet.P2PKHBitcoinAddress.from_scriptPubKey', 'bitcoin.wallet.P2WSHBitcoinAddress.from_scriptPubKey',
@@ -134,6 +138,13 @@ def certain(prop, q, old_fn, node, new_fn):
     """deletions whose effect on the property is certain -> text or None: a `raise` (or a call of the interpreter's
     err_raiser) directly under a test, in a function of the property's rule set, where the test is still made"""
     if q not in REFUSALS.get(prop, ()):
+        return None
+    if isinstance(node, ast.If) and not node.orelse and len(node.body) == 1:
+        # the whole guard clause `if T: raise ...` is gone
+        inner = node.body[0]
+        ref = isinstance(inner, ast.Raise) or (isinstance(inner, ast.Expr) and isinstance(inner.value, ast.Call) and isinstance(inner.value.func, ast.Name) and inner.value.func.id == 'err_raiser')
+        if ref and not (isinstance(inner, ast.Raise) and inner.exc is not None and 'AssertionError' in ast.unparse(inner.exc)) and 'len(commit_script)' not in ast.unparse(node.test):
+            return 'the guard clause `if %s: %s` of the confirmed %s is gone: what it turned away now goes through' % (ast.unparse(node.test)[:60], ast.unparse(inner)[:50], q.rsplit('.', 1)[-1])
         return None
     is_refusal = isinstance(node, ast.Raise) or (isinstance(node, ast.Expr) and isinstance(node.value, ast.Call) and isinstance(node.value.func, ast.Name) and node.value.func.id == 'err_raiser')
     if not is_refusal:
